@@ -52,7 +52,11 @@ func (g *gen) change(n, base, maxw int) Change {
 		}
 		return lo + uint64(g.r.Intn(int(W-lo+1)))
 	}
-	return Change{PC: pick(), Cert: pick(), Vals: vs}
+	ch := Change{PC: pick(), Cert: pick(), Vals: vs, Standby: []uint32{}}
+	for i := g.r.Intn(3); i > 0; i-- {
+		ch.Standby = append(ch.Standby, uint32(20+g.r.Intn(6)))
+	}
+	return ch
 }
 
 // history: one chain, mostly protocol-following generators, with deviations
@@ -138,7 +142,7 @@ func (g *gen) history(long bool) Case {
 			case 2:
 				ch.Vals[0].W = 0
 			case 3: // identical to current: must be a no-op
-				ch = Change{PC: ch.PC, Cert: ch.Cert, Vals: append([]Val{}, cur...)}
+				ch = Change{PC: ch.PC, Cert: ch.Cert, Vals: append([]Val{}, cur...), Standby: ch.Standby}
 			}
 			b.Chg = &ch
 			ok := len(ch.Vals) <= batch && ch.PC >= total(ch.Vals)/3+1 && ch.PC <= total(ch.Vals)
